@@ -50,7 +50,7 @@ IsReq(c, m) == m.name \in RequiredOf(c.kind, c.fl)
 WildNF(m, req) == m.cls \in (NFClasses(m.vt, req) \cap {"str", "emptyStr", "true", "zero", "strArr", "obj"})
                   /\ ~(m.vt \in {"bool"} /\ m.cls # "true")
 NF(c) == IF c.fam = "wild" THEN FALSE        \* wild inputs are judged for totality / idempotence only
-         ELSE IF c.fam = "payload" THEN FALSE
+         ELSE IF c.fam \in {"payload", "odd", "extcase"} THEN FALSE
          ELSE \A m \in Members(c) : m.cls \in NFClasses(m.vt, IsReq(c, m))
 
 \* ---------------------------------------------------------------- C15 scope
@@ -68,7 +68,7 @@ Scalars == {"true", "false", "zero", "num", "emptyStr", "str", "frac", "int", "n
 KF(o) ==
   LET c == o.case IN
   (IF \E m \in Members(c) : IsReq(c, m) /\ m.cls \in {"emptyStr", "scopesEmpty"} THEN {"KF-REQUIRED-EMPTY"} ELSE {})
-  \cup (IF c.kind \in {"externalDocs", "xml"} /\ \E m \in Members(c) : IsPrefix4(m.name, "x-") THEN {"KF-EXT-NO-CARRIER"} ELSE {})
+  \cup (IF c.kind \in {"externalDocs", "xml"} /\ \E m \in Members(c) : (IsPrefix4(m.name, "x-") \/ IsPrefix4(m.name, "X-")) THEN {"KF-EXT-NO-CARRIER"} ELSE {})
   \cup (IF \E m \in Members(c) : m.vt \in {"num", "int"} /\ m.cls = "zero" THEN {"KF-GOB-ZERO"} ELSE {})
   \cup (IF \E m \in Members(c) : m.cls \in {"withEmpty", "emptyArr", "mix"} THEN {"KF-GOB-EMPTY-ARRAY"} ELSE {})
   \cup (IF \E m \in Members(c) : m.name = "items" /\ c.kind = "schema" /\ c.fam = "wild" /\ m.cls \in Scalars
